@@ -67,11 +67,10 @@ def gen(rng, tier):
 TECHNIQUE = "Lean 4 theorems about wait/receive/SendSome/StepTodos timeouts (all scripts, all T) + exhaustive timeout grid replayed on the real code under a virtual clock"
 LEVEL_TEXT = ("Machine-checked theorems: T<0 never yields 'nothing' and only issues unlimited polls; T=0 issues only zero polls and lets no "
               "time pass; T>0: every poll argument is within the remaining budget, total blocking <= T however many polls/partial sends, "
-              "'nothing' exactly at start+T (receive, SendSome); Driver::Step: full wait when idle, never a negative (unlimited) or "
+              "'nothing' exactly at start+T (receive, SendSome); Driver::Step: wait within [0,T] for T>=0 whatever the tasks do (step_bounded), full wait when idle, never a negative (unlimited) or "
               "over-long wait while a ToDo is pending - for every due time thanks to the F6 clamp, refuted for the shipped narrowing by "
               "witness. Tied to /repo by enumerating the complete operation x timeout x arrival grid and the Step constellations on the "
               "real code under a link-time virtual clock, comparing every poll argument, virtual time and result with the model and with "
               "the documented semantics.")
 LEVEL_NOTE = ("Trusted: Lean kernel; axioms propext/Quot.sound/Classical.choice; model validated on the grid; vos shim. Real elapsed "
-              "time is the kernel's business (A-POLL). 'Step bounded by T' is checked on the implementation trace (Spec) and follows from "
-              "Deadline.remaining <= T; it has no separate theorem yet. TLS waits: C18.")
+              "time is the kernel's business (A-POLL). TLS waits: C18.")
